@@ -81,6 +81,34 @@ CLAUSES = [
     ("TensorFrame and Dataset sources", ["*"], ["src=tf / ds / ds_unmat / ds view"]),
 ]
 
+# Every raise / assert / try-except / special-case branch / dtype cast of the anchored code (loader.py,
+# TensorFrame.__getitem__), the generator kind that reaches it (all required by sanity()) and the oracle key that
+# notices if it is removed, loosened or made to return a default.
+ERROR_PATHS = [
+    ("loader.py: kwargs.pop('collate_fn', None)", "collate_form user / none / omitted",
+     "collate-called, collate-replaced (kept without the pop: raises:init:* from the duplicate keyword)"),
+    ("loader.py: isinstance(dataset, Dataset) -> dataset.materialize().tensor_frame | else dataset",
+     "src tf / ds / ds_unmat / ds view", "batch-content:*:<src>, not-materialized, raises:init:*"),
+    ("dataset.py: Dataset.tensor_frame @requires_post_materialization (RuntimeError)", "src ds_unmat",
+     "raises:init:* (reached only if the loader stops materializing)"),
+    ("loader.py: len(dataset) == 0 and kwargs.get('shuffle') -> kwargs['shuffle'] = False", "empty_shuffle_kw",
+     "raises:init:empty-shuffle"),
+    ("loader.py: len(dataset) == 0 and len(args) >= 2 and args[1] -> positional rewrite", "empty_shuffle_positional",
+     "raises:init:empty-shuffle; a rewrite applied to NON-empty sources shows as row order = identity -> H_shuffle_perm "
+     "still holds, so also batch_sampler/sampler positional forms (sampler:pos) guard the args tuple surgery: raises:init:*"),
+    ("tensor_frame.py __getitem__: isinstance(index, int) -> [index]", "direct:int", "direct-collate:int"),
+    ("tensor_frame.py __getitem__: dict-valued feature branch", "stype text_tokenized", "batch-content:*, columns-disagree"),
+    ("tensor_frame.py __getitem__: self._num_rows is not None -> dummy[index].size(0)",
+     "explicit_num_rows, featureless", "stale-num-rows:*, batch-size:*, batch-invalid"),
+    ("torch / containers: IndexError for a row index >= n (no wrap-around, no clamping)",
+     "error sampler / batch_sampler with an index in n..n+2", "no-raise:sampler, no-raise:batch_sampler"),
+    ("torch: ValueError batch_sampler is mutually exclusive with drop_last", "batch_sampler+drop_last",
+     "(torch's restriction, tolerated) the model returns None there; a silent acceptance is compared by the correspondence"),
+    ("torch: ValueError RandomSampler over an empty source", "empty_shuffle_*", "raises:init:empty-shuffle"),
+    ("dtype casts", "none in loader.py; batches are gathers (dtype of every stub column is compared exactly through "
+     "batch-content:* since payload ids are exact in float32 / int64)", "batch-content:*"),
+]
+
 STYPES = ["numerical", "categorical", "timestamp", "embedding", "multicategorical", "sequence_numerical",
           "text_tokenized"]
 TOK_KEYS = ["input_ids", "attention_mask"]
